@@ -164,8 +164,9 @@ theorem schedule_bump_of_not_canceled (w : World) (g : Nat) (val : Val) (sig : S
 
 theorem chanPush_Evo {cfg : Cfg} (hs : cfg.pushBlocksStrict = true) {w : World} {f c x mode : Nat} {w' : World} {b : Bool}
     (h : chanPush cfg w f c x mode = .ok w' b)
-    (hnc : ∀ p ∈ (w.chans c).readPending, p.sched = (w.fibers p.fiber).sched → (w.fibers p.fiber).canceled = false) :
-    Evo (some f) w w' := by
+    (hnc : ∀ p ∈ (w.chans c).readPending, p.sched = (w.fibers p.fiber).sched → (w.fibers p.fiber).canceled = false)
+    (cur : Option Nat) (hc : mode ≠ 2 → cur = some f) :
+    Evo cur w w' := by
   obtain ⟨htm, _⟩ := chanPush_misc cfg w f c x mode w' b h
   obtain ⟨_, _, hoth, hcase⟩ := chanPush_cases cfg hs w f c x mode w' b h
   rcases hcase with ⟨hno, hfib, hrq, _, _, hrp, _, _, _, hwp⟩ | ⟨r, rest, hq, _, _, hw'⟩
@@ -181,7 +182,7 @@ theorem chanPush_Evo {cfg : Cfg} (hs : cfg.pushBlocksStrict = true) {w : World} 
         · exact Or.inl hp
         · right
           split at hp
-          · simp at hp; subst hp; rfl
+          · rename_i hcond; simp at hp; subst hp; exact hc hcond.2
           · simp at hp
       · rw [hoth c' e] at hp; exact Or.inl hp
     · intro c' p hp hnp
@@ -198,7 +199,7 @@ theorem chanPush_Evo {cfg : Cfg} (hs : cfg.pushBlocksStrict = true) {w : World} 
     have hrs := (live_iff w.fibers r).mp hrlive
     have hcan : (w.fibers r.fiber).canceled = false := hnc r hrin hrs
     have hw1 : w' = scheduleGeneral w1 r.fiber (if r.mode = .choiceRead then .take c x else .num x) .ok false := hw'
-    have hE1 : Evo (some f) w1 w' := by rw [hw1]; exact scheduleGeneral_Evo _ _ _ _ _
+    have hE1 : Evo cur w1 w' := by rw [hw1]; exact scheduleGeneral_Evo _ _ _ _ _
     have hbump : (w.fibers r.fiber).sched < (w'.fibers r.fiber).sched := by
       rw [hw1]; exact schedule_bump_of_not_canceled w1 r.fiber _ .ok hcan
     have hch : w'.chans = w1.chans := by rw [hw1]; exact scheduleGeneral_chans _ _ _ _ _
@@ -206,7 +207,7 @@ theorem chanPush_Evo {cfg : Cfg} (hs : cfg.pushBlocksStrict = true) {w : World} 
     have hw1w : (w1.chans c).writePending = (w.chans c).writePending := by simp [w1, addHanded, setChan, addPushed]
     have hw1o : ∀ c', c' ≠ c → w1.chans c' = w.chans c' := by
       intro c' hc'; simp [w1, addHanded, setChan, addPushed, hc']
-    refine ⟨⟨hE1.1.mono, ?_, ?_, ?_, ?_⟩, (EvoS.of_same rfl rfl rfl : EvoS (some f) w w1).trans hE1.2⟩
+    refine ⟨⟨hE1.1.mono, ?_, ?_, ?_, ?_⟩, (EvoS.of_same rfl rfl rfl : EvoS cur w w1).trans hE1.2⟩
     · intro c' p hp
       rw [hch] at hp
       by_cases e : c' = c
@@ -350,7 +351,7 @@ theorem choiceImmediate_Evo {cfg : Cfg} (hg : CfgGood cfg) (f : Nat) (cls : List
           | closedErr => rw [hp] at h; simp at h; rw [← h.1]; exact Evo.refl _ _
           | ok w1 b =>
             rw [hp] at h; simp at h; rw [← h.1]
-            exact chanPush_Evo hg.strict hp (fun p hp hs => hnc c p ((mem_ent w c p).mpr (Or.inl hp)) hs)
+            exact chanPush_Evo hg.strict hp (fun p hp hs => hnc c p ((mem_ent w c p).mpr (Or.inl hp)) hs) _ (fun _ => rfl)
         · simp only [hr] at h
           exact ih w w' v (by simpa using h) hnc
     | take c =>
@@ -436,7 +437,7 @@ theorem choiceRegister_Evo {cfg : Cfg} (hg : CfgGood cfg) (f : Nat) (cls : List 
         simp only [Cond, Clause.chan] at hc0 ⊢
         obtain ⟨w1, b, hp⟩ := chanPush_open (cfg := cfg) w f c x 1 hc0.1
         have hstale := fun p hp => not_live_of_hasLiveReader_false hc0.2.2 p hp
-        have hE := chanPush_Evo hg.strict hp (fun p hp hs => absurd hs (hstale p hp))
+        have hE := chanPush_Evo hg.strict hp (fun p hp hs => absurd hs (hstale p hp)) (some f) (fun _ => rfl)
         obtain ⟨htm, _⟩ := chanPush_misc cfg w f c x 1 w1 b hp
         obtain ⟨_, _, hoth, hcase⟩ := chanPush_cases cfg hg.strict w f c x 1 w1 b hp
         rcases hcase with ⟨_, hfib, hrq, _, hb, hrp, _, _, _, hwp⟩ | ⟨r, rest', hq, _⟩
@@ -645,6 +646,14 @@ theorem step_Evo {cfg : Cfg} (hg : CfgGood cfg) (w : World) (a : Action) (hns : 
     | timers => exact loopTimers_Evo w
     | poll => exact loopPollDrop_Evo w
     | scopeEnd s => exact Evo.of_ghost rfl rfl rfl rfl
+    | supEvent c x =>
+      simp only []
+      unfold supPush
+      cases hp : chanPush cfg w 0 c x 2 with
+      | closedErr => exact Evo.refl _ _
+      | ok w1 b =>
+        exact chanPush_Evo hg.strict hp (fun p hp hs => hnc c p ((mem_ent w c p).mpr (Or.inl hp)) hs) none
+          (fun h => absurd rfl h)
     | _ => exact Evo.refl _ _
   | some f =>
     have hq : WQuiet w f := hqq f hcur
@@ -652,6 +661,7 @@ theorem step_Evo {cfg : Cfg} (hg : CfgGood cfg) (w : World) (a : Action) (hns : 
     | runTask => exact Evo.refl _ _
     | timers => exact Evo.refl _ _
     | poll => exact Evo.refl _ _
+    | supEvent c x => exact Evo.refl _ _
     | scopeEnd s => exact Evo.of_ghost rfl rfl rfl rfl
     | go g =>
       simp only []
@@ -677,7 +687,7 @@ theorem step_Evo {cfg : Cfg} (hg : CfgGood cfg) (w : World) (a : Action) (hns : 
       cases hp : chanPush cfg w f c x 0 with
       | closedErr => exact finishFiber_Evo _ w f true
       | ok w1 b =>
-        have hE := chanPush_Evo hg.strict hp (fun p hp hs => hnc c p ((mem_ent w c p).mpr (Or.inl hp)) hs)
+        have hE := chanPush_Evo hg.strict hp (fun p hp hs => hnc c p ((mem_ent w c p).mpr (Or.inl hp)) hs) (some f) (fun _ => rfl)
         cases b with
         | true => exact hE.trans (awaitFiber_Evo w1 f)
         | false => exact hE
@@ -911,6 +921,7 @@ theorem suspend_K {cfg : Cfg} (hg : CfgGood cfg) (w : World) (a : Action) (hns :
     | runTask => simp only [] at hr; subst hr; exact (not_pending_of_current hW' hcur hp').elim
     | timers => simp only [] at hr; subst hr; exact (not_pending_of_current hW' hcur hp').elim
     | poll => simp only [] at hr; subst hr; exact (not_pending_of_current hW' hcur hp').elim
+    | supEvent c x => simp only [] at hr; subst hr; exact (not_pending_of_current hW' hcur hp').elim
     | scopeEnd s => simp only [] at hr; subst hr; exact (not_pending_of_current hW' rfl hp').elim
     | go g =>
       simp only [] at hr
